@@ -38,6 +38,10 @@ def forms():
     el("x+1", lambda x: x + 1); el("2*x", lambda x: 2 * x); el("x/2", lambda x: x / 2); el("x**2", lambda x: x ** 2)
     el("-x", lambda x: -x); el("x>0", lambda x: x > 0); el("x==1", lambda x: x == 1); el("abs(x)", lambda x: abs(x))
     el("x%2", lambda x: x % 2); el("x//2", lambda x: x // 2); el("1-x", lambda x: 1 - x); el("x-raw", lambda x: x - np.asarray(x))
+    # the right operand is whatever the library returns for an axis-0 reduction: a raw array — or, for SQUARE shapes, a
+    # time series of another class; the result is still x's values, timestamps, support and labels
+    el("x-np.mean(x,0)", lambda x: x - np.mean(x, axis=0)); el("x/np.sum(x,0)", lambda x: x / np.sum(x, 0))
+    el("np.subtract(x,x.max(0))", lambda x: np.subtract(x, x.max(0)))
     el("np.clip", lambda x: np.clip(x, -1, 5)); el("np.round", lambda x: np.round(x, 1)); el("np.nan_to_num", lambda x: np.nan_to_num(x))
     el("np.where(x>0,x,0)", lambda x: np.where(np.asarray(x) > 0, x, 0))
     el("np.cumsum(axis0)", lambda x: np.cumsum(x, axis=0)); el("np.cumprod(axis0)", lambda x: np.cumprod(x, axis=0))
